@@ -161,8 +161,7 @@ def check(run):
     run.nontrivial = {str(x) for x in run.nontrivial}
     run.sample({"case": cases[3][:500], "impl": io[3][:600]})
     report_diffs(run, diffs, "coq/Client.v (retry_next, connect)", "zvt_feig_terminal::stream", "client")
-    if any(not v.get("no_failing_input_found") for v in run.violations):
-        run.violations = [v for v in run.violations if not v.get("no_failing_input_found")]
+    vlib.prefer_concrete(run)
     return vlib.finish(run, trusted_base=TB, assumptions=["partial: an in-memory connector stands for TCP; ASCII serials",
                                                            "a foreign consumer of the public ResetSequence trait that stops polling at an Err keeps the connection (observation O8); the client's own loops always poll again"])
 
